@@ -11,6 +11,7 @@ ap = argparse.ArgumentParser()
 ap.add_argument("tag"); ap.add_argument("property")
 ap.add_argument("--runs", default="0"); ap.add_argument("--tier", default="quick")
 ap.add_argument("--needs", default=""); ap.add_argument("--skip-demo", action="store_true")
+ap.add_argument("--base", default="")
 a = ap.parse_args()
 d = "/verif/seeded/%s" % a.tag
 os.makedirs(d, exist_ok=True)
@@ -21,6 +22,7 @@ for fn, dst in (("patch_%s.diff" % a.tag, "patch.diff"), ("demo_%s.py" % a.tag, 
 meta_p = os.path.join(d, "meta.json")
 meta = json.load(open(meta_p)) if os.path.exists(meta_p) else {}
 meta.update({"id": a.tag, "property": a.property})
+base = a.base or meta.get("base_commit") or "HEAD"
 if a.needs:
     meta["needs_to_manifest"] = a.needs
 env = dict(os.environ, OMP_NUM_THREADS="1", MKL_NUM_THREADS="1", PYTHONWARNINGS="ignore")
@@ -28,7 +30,7 @@ if not a.skip_demo:
     scratch = tempfile.mkdtemp(prefix="seed_", dir="/tmp")
     wt = os.path.join(scratch, "repo")
     try:
-        subprocess.run(["git", "-C", "/repo", "worktree", "add", "-q", "--detach", wt, "HEAD"], check=True)
+        subprocess.run(["git", "-C", "/repo", "worktree", "add", "-q", "--detach", wt, base], check=True)
         shutil.copy(os.path.join(d, "demo.py"), os.path.join(wt, "demo.py"))
         e = dict(env, PYTHONPATH=wt)
         r0 = subprocess.run(["/venv/bin/python", "demo.py"], cwd=wt, env=e, capture_output=True, text=True, timeout=1800)
@@ -45,7 +47,7 @@ if not a.skip_demo:
     finally:
         subprocess.run(["git", "-C", "/repo", "worktree", "remove", "--force", wt], capture_output=True)
         shutil.rmtree(scratch, ignore_errors=True)
-cmd = ["python3", "/verif/tools/mutant_run.py", os.path.join(d, "patch.diff"), a.property, "--tier", a.tier]
+cmd = ["python3", "/verif/tools/mutant_run.py", os.path.join(d, "patch.diff"), a.property, "--tier", a.tier, "--base", base]
 if a.runs != "0":
     cmd += ["--runs", a.runs]
 t0 = time.time()
